@@ -345,6 +345,72 @@ func checkIfNode(w *World, r *Report) {
 	rep("else branch only when no condition was truthy", vElseAfter, "the else branch is unreachable once a truthy edge was taken", "the else branch can be rendered although a condition was truthy")
 	rep("a body is rendered only under its truthy condition", vBodyWithout, "every body render follows the truthy edge of a condition test", "a body of the chain can be rendered without its condition having been found truthy")
 
+	// R09.10: wherever conditions of an if chain are evaluated — the renderer, a tracing or
+	// pre-check helper — condition k+1 is evaluated only after condition k was found falsy: on
+	// every path between two evaluations lies the falsy edge of a truthiness test.  (Evaluating
+	// the rest of the chain "to log it" runs expressions the template guarded with the earlier
+	// conditions: `{% if xs is empty %}…{% elseif xs[0] %}` fails instead of rendering.)
+	nEvalFns := 0
+	for _, g := range w.pkgFuncs() {
+		isCondEval := func(in ssa.Instruction) bool {
+			c, ok := in.(*ssa.Call)
+			if !ok || calleeFunc(c) != evalM || len(callArgs(c)) == 0 {
+				return false
+			}
+			tn, f := originField(callArgs(c)[0], 0)
+			return tn == "IfNode" && f == "conditions"
+		}
+		has := false
+		instrsOf(g, func(in ssa.Instruction) {
+			if isCondEval(in) {
+				has = true
+			}
+		})
+		if !has {
+			continue
+		}
+		nEvalFns++
+		type pst struct {
+			b       *ssa.BasicBlock
+			pending bool
+		}
+		seenP := map[pst]bool{}
+		viol := ""
+		var walk func(s pst)
+		walk = func(s pst) {
+			if seenP[s] || viol != "" {
+				return
+			}
+			seenP[s] = true
+			pending := s.pending
+			for _, in := range s.b.Instrs {
+				if isCondEval(in) {
+					if pending {
+						viol = w.posOf(in.Pos())
+						return
+					}
+					pending = true
+				}
+			}
+			v, trueIdx, ok := ifCond(s.b)
+			for i, succ := range s.b.Succs {
+				np := pending
+				if ok && isToBool(v) && i != trueIdx {
+					np = false
+				}
+				walk(pst{succ, np})
+			}
+		}
+		walk(pst{g.Blocks[0], false})
+		construct := "a condition is evaluated only after the previous one was found falsy"
+		if viol == "" {
+			r.ok("R09.10", ssaName(g), construct, w.posOf(g.Pos()), "between two evaluations of chain conditions every path takes the falsy edge of a truthiness test", true)
+		} else {
+			r.bad("R09.10", ssaName(g), construct, viol, "a condition of the if/elseif chain can be evaluated although the previous one was not found falsy (no truthiness test between the two evaluations): expressions the template guards with an earlier condition are run anyway, and their failure replaces the branch that should have rendered")
+		}
+	}
+	r.Counts["functions evaluating if-chain conditions"] = nEvalFns
+
 	// same index for conditions[i] and bodies[i]
 	var condIdx, bodyIdx ssa.Value
 	instrsOf(fn, func(in ssa.Instruction) {
